@@ -103,6 +103,8 @@ theorem apply0_queue_frame (w : World) (l : Label) (b : BId) (h : writesQueue l 
     · simp
   case wiEnd => simp [apply0]
   case wiCancel => simp [apply0]
+  case expectTimeout x' => simp only [apply0]; split <;> simp
+  case expectCancelReq x' => simp only [apply0]; split <;> simp
   case stopBegin x b' c => by_cases hb : b = b' <;> simp [apply0, qview, hb, setBus_bus]
   case stopNoop => simp [apply0]
   case stopEnd x =>
@@ -123,12 +125,12 @@ theorem apply0_queue_frame (w : World) (l : Label) (b : BId) (h : writesQueue l 
   case expectEnd x got =>
     simp only [apply0]
     split
-    · rename_i b' _ _ _ _ _; by_cases hb : b = b' <;> simp [qview, hb, setBus_bus]
+    · rename_i b' _ _ _ _ _ _; by_cases hb : b = b' <;> simp [qview, hb, setBus_bus]
     · simp
   case expectCancel x =>
     simp only [apply0]
     split
-    · rename_i b' _ _ _ _ _; by_cases hb : b = b' <;> simp [qview, hb, setBus_bus]
+    · rename_i b' _ _ _ _ _ _; by_cases hb : b = b' <;> simp [qview, hb, setBus_bus]
     · simp
 
 theorem fifoOk_of_qview (w w' : World) (b : BId) (h : qview (w'.bus b) = qview (w.bus b)) : FifoOk w b → FifoOk w' b := by
